@@ -326,7 +326,6 @@ void reb_read_simulationarchive_from_stream_with_messages(struct reb_simulationa
                     sa->t = NULL;
                     free(sa->offset);
                     sa->offset = NULL;
-                    free(sa);
                     *warnings |= REB_SIMULATION_BINARY_ERROR_SEEK;
                     return;
                 }
